@@ -1,29 +1,14 @@
-(* ThreadedHistory LTS: with no append concurrent with loading, every schedule
-   gives every consumer the inline sequence; with one, it does not. *)
+(* ThreadedHistory LTS (patched code): whatever appends interleave - outside
+   the window between the first load()'s cache reset and the loader's reading
+   of the storage - every load() yields exactly the entries that were stored
+   (or being stored) when it started, newest first, each once; inside that
+   window the property is still false. *)
 From Coq Require Import ZArith List Bool Lia.
 From PTK Require Import Lib.Sx Lib.Py Model.C13_Threaded.
 Import ListNotations.
 Open Scope Z_scope.
 
 Definition pre (a b : list str) : Prop := exists t, b = a ++ t.
-
-(* consumer invariant against the inline sequence R = reversed storage *)
-Definition cinv (R : list str) (c : consumer) : Prop :=
-  if c_fin c then c_out c = rev (c_snap c)
-  else pre (c_out c) R /\ length (c_out c) = c_iy c.
-
-Definition phinv (st : tstate) : Prop :=
-  let R := rev (t_store st) in
-  match t_ph st with
-  | P0 => t_cons st = [] /\ pre (t_ls st) R /\ t_loaded st = false
-  | P1 => pre (t_ls st) R /\ t_loaded st = false
-  | P2 => t_ls st = [] /\ t_loaded st = false
-  | P3 pend => t_ls st ++ pend = R /\ t_loaded st = false
-  | P4 => t_ls st = R /\ t_loaded st = true
-  end.
-
-Definition Inv (st : tstate) : Prop :=
-  t_fly st = [] /\ phinv st /\ Forall (cinv (rev (t_store st))) (t_cons st).
 
 Lemma pre_nil b : pre [] b.
 Proof. now exists b. Qed.
@@ -33,6 +18,9 @@ Proof. exists []. now rewrite app_nil_r. Qed.
 
 Lemma pre_length a b : pre a b -> (length a <= length b)%nat.
 Proof. intros [t ->]. rewrite app_length. lia. Qed.
+
+Lemma pre_app_l x a b : pre a b -> pre (x ++ a) (x ++ b).
+Proof. intros [t ->]. exists t. now rewrite app_assoc. Qed.
 
 (* two prefixes of one list: appending the rest of the longer to the shorter *)
 Lemma pre_join (a l R : list str) :
@@ -48,47 +36,123 @@ Proof.
   rewrite Ha at 1. apply firstn_skipn.
 Qed.
 
-Lemma ls_pre st : phinv st -> pre (t_ls st) (rev (t_store st)).
+Lemma str_eqb_refl s : str_eqb s s = true.
+Proof. induction s as [|x s IH]; [reflexivity|]. cbn [str_eqb]. now rewrite Z.eqb_refl. Qed.
+
+Lemma str_eqb_eq a : forall b, str_eqb a b = true -> a = b.
 Proof.
-  unfold phinv. destruct (t_ph st) as [| | |pend|].
-  - intros (_ & H & _). exact H.
-  - intros (H & _). exact H.
-  - intros (-> & _). apply pre_nil.
-  - intros (H & _). now exists pend.
-  - intros (-> & _). apply pre_refl.
+  induction a as [|x a IH]; intros [|y b] H; cbn [str_eqb] in H; try discriminate; [reflexivity|].
+  apply andb_true_iff in H as [H1 H2]. apply Z.eqb_eq in H1. subst. f_equal. now apply IH.
 Qed.
 
-Lemma loaded_P4 st : phinv st -> t_loaded st = true -> t_ls st = rev (t_store st).
+(* the part of the cache a consumer looks at: ls = rev (A ++ fly) ++ T *)
+Definition view_ok (st : tstate) (T : list str) : Prop :=
+  exists A, t_store st = t_base st ++ A /\ t_ls st = rev (A ++ t_fly st) ++ T /\
+            pre T (rev (t_base st)) /\ (t_loaded st = true -> T = rev (t_base st)).
+
+Definition phinv (st : tstate) : Prop :=
+  (length (t_fly st) <= 1)%nat /\
+  match t_ph st with
+  | P0 => t_cons st = [] /\ t_loaded st = false
+  | P2 => t_ls st = [] /\ t_fly st = [] /\ t_loaded st = false
+  | P3 pend => exists A T, t_store st = t_base st ++ A /\ t_ls st = rev (A ++ t_fly st) ++ T /\
+                           T ++ pend = rev (t_base st) /\ t_loaded st = false
+  | P4 => exists A, t_store st = t_base st ++ A /\
+                    t_ls st = rev (A ++ t_fly st) ++ rev (t_base st) /\ t_loaded st = true
+  end.
+
+Definition cinv (st : tstate) (c : consumer) : Prop :=
+  if c_fin c then c_out c = rev (c_start c)
+  else match t_ph st with
+       | P0 => False
+       | P2 => c_out c = [] /\ c_iy c = 0%nat /\ c_start c = t_store st /\ c_p0 c = t_np st
+       | _ => exists V0 V1,
+                t_store st ++ t_fly st = t_base st ++ V0 ++ V1 /\
+                c_start c = t_base st ++ V0 /\
+                t_np st = (c_p0 c + length V1)%nat /\
+                pre (c_out c) (rev (c_start c)) /\ length (c_out c) = c_iy c
+       end.
+
+Definition Inv (st : tstate) : Prop := phinv st /\ Forall (cinv st) (t_cons st).
+
+Lemma view_of_phinv st :
+  phinv st -> (match t_ph st with P3 _ | P4 => True | _ => False end) -> exists T, view_ok st T.
 Proof.
-  unfold phinv. destruct (t_ph st) as [| | |pend|]; intros H E.
-  - destruct H as (_ & _ & H). congruence.
-  - destruct H as (_ & H). congruence.
-  - destruct H as (_ & H). congruence.
-  - destruct H as (_ & H). congruence.
-  - destruct H as (H & _). exact H.
+  intros [_ H] Hp. destruct (t_ph st) as [| |pend|] eqn:E; try contradiction.
+  - destruct H as (A & T & H1 & H2 & H3 & H4). exists T, A. repeat split; auto.
+    + now exists pend.
+    + congruence.
+  - destruct H as (A & H1 & H2 & H3). exists (rev (t_base st)), A. repeat split; auto. apply pre_refl.
 Qed.
 
-Lemma cinv_set_ev R c : cinv R c -> cinv R (set_ev c).
+Lemma cinv_set_ev st c : cinv st c -> cinv st (set_ev c).
 Proof.
   unfold cinv, set_ev. destruct (c_fin c) eqn:E; [now rewrite E|]. cbn. auto.
 Qed.
 
-Lemma cinv_read st c :
-  phinv st -> cinv (rev (t_store st)) c -> cinv (rev (t_store st)) (read st c).
+Lemma skipn_add {T} (a b : nat) : forall l : list T, skipn (a + b) l = skipn b (skipn a l).
+Proof.
+  induction a as [|a IH]; intros l; [reflexivity|].
+  destruct l as [|x l]; cbn [Nat.add skipn]; [now rewrite skipn_nil|apply IH].
+Qed.
+
+Lemma skipn_rev_app (V1 rest : list str) : skipn (length V1) (rev V1 ++ rest) = rest.
+Proof.
+  rewrite skipn_app, rev_length, Nat.sub_diag. rewrite <- (rev_length V1), skipn_all. reflexivity.
+Qed.
+
+Lemma cinv_read st c : phinv st -> cinv st c -> cinv st (read st c).
 Proof.
   intros Hp Hc. unfold read. destruct (c_fin c) eqn:Ef; [exact Hc|].
-  unfold cinv in *. rewrite Ef in Hc. destruct Hc as [Hpre Hlen]. cbn [c_fin c_out c_iy c_snap].
-  pose proof (ls_pre st Hp) as Hls.
-  assert (Hout : (length (c_out c) <= length (t_ls st))%nat ->
-                 c_out c ++ skipn (c_iy c) (t_ls st) = t_ls st).
-  { intros H. rewrite <- Hlen. now apply (pre_join _ _ (rev (t_store st))). }
-  destruct (t_loaded st) eqn:El.
-  - pose proof (loaded_P4 st Hp El) as E. rewrite Hout; [exact E|].
-    rewrite E. now apply pre_length.
-  - destruct (Nat.le_gt_cases (length (c_out c)) (length (t_ls st))) as [H|H].
-    + rewrite Hout by exact H. split; [exact Hls|].
-      rewrite skipn_length. lia.
-    + rewrite skipn_all2 by lia. rewrite app_nil_r. cbn [length]. split; [exact Hpre|lia].
+  unfold cinv in *. rewrite Ef in Hc. cbn [c_fin c_out c_iy c_start c_p0].
+  destruct (t_ph st) as [| |pend|] eqn:Eph.
+  - contradiction.
+  - destruct Hp as [_ Hp]. rewrite Eph in Hp. destruct Hp as (Hls & Hfly & Hl).
+    destruct Hc as (Ho & Hi & Hs & Hn). rewrite Hl, Hls, skipn_nil, Ho, Hi. cbn. auto.
+  - (* P3 *)
+    destruct (view_of_phinv st Hp) as (T & A & HS & HL & HT & HD); [now rewrite Eph|].
+    destruct Hc as (V0 & V1 & E1 & E2 & E3 & Hpre & Hlen).
+    assert (EA : A ++ t_fly st = V0 ++ V1).
+    { rewrite HS in E1. rewrite <- app_assoc in E1. now apply app_inv_head in E1. }
+    assert (Hview : skipn (t_np st - c_p0 c + c_iy c) (t_ls st) = skipn (c_iy c) (rev V0 ++ T)).
+    { rewrite skipn_add. f_equal.
+      replace (t_np st - c_p0 c)%nat with (length V1) by lia.
+      rewrite HL, EA, rev_app_distr, <- app_assoc. apply skipn_rev_app. }
+    rewrite Hview.
+    assert (Hvpre : pre (rev V0 ++ T) (rev (c_start c))).
+    { rewrite E2, rev_app_distr. now apply pre_app_l. }
+    destruct (t_loaded st) eqn:El.
+    + rewrite (HD eq_refl) in *. rewrite <- Hlen.
+      rewrite (pre_join _ _ _ Hpre Hvpre).
+      * rewrite E2, rev_app_distr. reflexivity.
+      * apply pre_length. rewrite E2, rev_app_distr in Hpre. exact Hpre.
+    + exists V0, V1. split; [exact E1|]. split; [exact E2|]. split; [exact E3|].
+      destruct (Nat.le_gt_cases (length (c_out c)) (length (rev V0 ++ T))) as [H|H].
+      * rewrite <- Hlen. rewrite (pre_join _ _ _ Hpre Hvpre H). split; [exact Hvpre|].
+        rewrite skipn_length. lia.
+      * rewrite skipn_all2 by lia. rewrite app_nil_r. cbn [length]. split; [exact Hpre|lia].
+  - (* P4 *)
+    destruct (view_of_phinv st Hp) as (T & A & HS & HL & HT & HD); [now rewrite Eph|].
+    destruct Hc as (V0 & V1 & E1 & E2 & E3 & Hpre & Hlen).
+    assert (EA : A ++ t_fly st = V0 ++ V1).
+    { rewrite HS in E1. rewrite <- app_assoc in E1. now apply app_inv_head in E1. }
+    assert (Hview : skipn (t_np st - c_p0 c + c_iy c) (t_ls st) = skipn (c_iy c) (rev V0 ++ T)).
+    { rewrite skipn_add. f_equal.
+      replace (t_np st - c_p0 c)%nat with (length V1) by lia.
+      rewrite HL, EA, rev_app_distr, <- app_assoc. apply skipn_rev_app. }
+    rewrite Hview.
+    assert (Hvpre : pre (rev V0 ++ T) (rev (c_start c))).
+    { rewrite E2, rev_app_distr. now apply pre_app_l. }
+    destruct (t_loaded st) eqn:El.
+    + rewrite (HD eq_refl) in *. rewrite <- Hlen.
+      rewrite (pre_join _ _ _ Hpre Hvpre).
+      * rewrite E2, rev_app_distr. reflexivity.
+      * apply pre_length. rewrite E2, rev_app_distr in Hpre. exact Hpre.
+    + exists V0, V1. split; [exact E1|]. split; [exact E2|]. split; [exact E3|].
+      destruct (Nat.le_gt_cases (length (c_out c)) (length (rev V0 ++ T))) as [H|H].
+      * rewrite <- Hlen. rewrite (pre_join _ _ _ Hpre Hvpre H). split; [exact Hvpre|].
+        rewrite skipn_length. lia.
+      * rewrite skipn_all2 by lia. rewrite app_nil_r. cbn [length]. split; [exact Hpre|lia].
 Qed.
 
 Lemma Forall_upd_nth {T} (P : T -> Prop) (f : T -> T) l i :
@@ -98,56 +162,117 @@ Proof.
   inversion H; subst. destruct i; cbn [upd_nth]; constructor; auto.
 Qed.
 
-Lemma str_eqb_refl s : str_eqb s s = true.
-Proof. induction s as [|x s IH]; [reflexivity|]. cbn [str_eqb]. now rewrite Z.eqb_refl. Qed.
+(* cinv only looks at these parts of the state *)
+Lemma cinv_ext st st' c :
+  t_ph st' = t_ph st -> t_store st' = t_store st -> t_fly st' = t_fly st ->
+  t_base st' = t_base st -> t_np st' = t_np st -> cinv st c -> cinv st' c.
+Proof. unfold cinv. intros -> -> -> -> ->. auto. Qed.
 
-Lemma cinv_fin_any R R' c : c_fin c = true -> cinv R c -> cinv R' c.
-Proof. unfold cinv. now intros ->. Qed.
-
-Lemma step1_inv st l : l <> CStartL -> Inv st -> ok_label st l = true -> Inv (tstep1 st l).
+Lemma step_inv_prim st l :
+  (forall s, l <> Append s) -> Inv st -> ok_label st l = true -> Inv (tstep st l).
 Proof.
-  intros Hnl (Hfly & Hp & Hc) Hok. destruct l as [| |i|s|s|s|]; try discriminate Hok; try congruence.
+  intros Hna [Hp Hc] Hok. destruct l as [| |i|s|s|s]; [| | | | |now destruct (Hna s)].
   - (* LStep *)
-    unfold tstep1. unfold Inv, phinv in *. destruct (t_ph st) as [| | |[|x r]|] eqn:Eph.
-    + rewrite Eph. auto.
-    + cbn. repeat split; auto. tauto.
-    + cbn. destruct Hp as (E & Hl). rewrite E. repeat split; auto.
-    + cbn. destruct Hp as (E & Hl). rewrite app_nil_r in E. repeat split; auto.
-      apply Forall_map. eapply Forall_impl; [|exact Hc]. intros c. apply cinv_set_ev.
-    + cbn. destruct Hp as (E & Hl). rewrite <- app_assoc. repeat split; auto.
-      apply Forall_map. eapply Forall_impl; [|exact Hc]. intros c. apply cinv_set_ev.
-    + rewrite Eph. auto.
+    pose proof Hp as [Hfl Hph]. unfold Inv, tstep. destruct (t_ph st) as [| |[|x r]|] eqn:Eph.
+    + split; [exact Hp|exact Hc].
+    + (* snapshot *)
+      destruct Hph as (Hls & Hfly & Hl). split.
+      * split; [exact Hfl|]. cbn. exists [], []. rewrite Hfly, Hls. cbn. rewrite app_nil_r. auto.
+      * eapply Forall_impl; [|exact Hc]. intros c Hci. unfold cinv in *. cbn [t_ph t_store t_fly t_base t_np].
+        rewrite Eph in Hci. destruct (c_fin c); [exact Hci|].
+        destruct Hci as (Ho & Hi & Hs & Hn). exists [], []. rewrite Hfly, Ho, Hi, Hs, Hn. cbn.
+        rewrite !app_nil_r. repeat split; auto. apply pre_nil.
+    + destruct Hph as (A & T & H1 & H2 & H3 & H4). rewrite app_nil_r in H3. split.
+      * split; [exact Hfl|]. cbn. exists A. subst T. auto.
+      * apply Forall_map. eapply Forall_impl; [|exact Hc]. intros c Hci. apply cinv_set_ev.
+        unfold cinv in *. cbn [t_ph t_store t_fly t_base t_np]. rewrite Eph in Hci. exact Hci.
+    + destruct Hph as (A & T & H1 & H2 & H3 & H4). split.
+      * split; [exact Hfl|]. cbn. exists A, (T ++ [x]). rewrite H2, <- !app_assoc. auto.
+      * apply Forall_map. eapply Forall_impl; [|exact Hc]. intros c Hci. apply cinv_set_ev.
+        unfold cinv in *. cbn [t_ph t_store t_fly t_base t_np]. rewrite Eph in Hci. exact Hci.
+    + split; [exact Hp|exact Hc].
   - (* CStart *)
-    unfold tstep1, Inv, phinv in *. cbn [t_fly t_ph t_ls t_store t_loaded t_cons].
-    split; [exact Hfly|]. split.
-    + destruct (t_ph st); tauto.
-    + apply Forall_app. split; [exact Hc|]. constructor; [|constructor].
-      unfold cinv. cbn. split; [apply pre_nil|reflexivity].
+    pose proof Hp as [Hfl Hph]. cbn [ok_label] in Hok. unfold Inv, tstep.
+    destruct (t_ph st) as [| |pend|] eqn:Eph.
+    + cbn in Hok. unfold fly_nil in Hok. destruct (t_fly st) eqn:Ef; [|discriminate].
+      destruct Hph as (Hcons & Hl). split.
+      * split; [cbn; lia|]. cbn. auto.
+      * rewrite Hcons. cbn [app]. constructor; [|constructor].
+        unfold cinv, new_cons. cbn. rewrite ?Ef, ?app_nil_r. auto.
+    + destruct Hph as (Hls & Hfly & Hl). split.
+      * split; [exact Hfl|]. cbn. auto.
+      * apply Forall_app. split.
+        -- eapply Forall_impl; [|exact Hc]. intros c. apply cinv_ext; cbn; auto.
+        -- constructor; [|constructor]. unfold cinv, new_cons. cbn. rewrite Hfly, app_nil_r. auto.
+    + split.
+      * split; [exact Hfl|]. cbn. exact Hph.
+      * apply Forall_app. split.
+        -- eapply Forall_impl; [|exact Hc]. intros c. apply cinv_ext; cbn; auto.
+        -- constructor; [|constructor]. destruct Hph as (A & T & H1 & H2 & H3 & H4).
+           unfold cinv, new_cons. cbn. exists (A ++ t_fly st), [].
+           rewrite H1, app_nil_r, <- !app_assoc. cbn. repeat split; auto. apply pre_nil.
+    + split.
+      * split; [exact Hfl|]. cbn. exact Hph.
+      * apply Forall_app. split.
+        -- eapply Forall_impl; [|exact Hc]. intros c. apply cinv_ext; cbn; auto.
+        -- constructor; [|constructor]. destruct Hph as (A & H1 & H2 & H3).
+           unfold cinv, new_cons. cbn. exists (A ++ t_fly st), [].
+           rewrite H1, app_nil_r, <- !app_assoc. cbn. repeat split; auto. apply pre_nil.
   - (* CRead *)
-    unfold tstep1, Inv in *. cbn [t_fly t_ph t_ls t_store t_loaded t_cons].
-    split; [exact Hfly|]. split.
-    + unfold phinv in *. cbn [t_ph t_ls t_store t_loaded t_cons].
-      destruct (t_ph st); try tauto. destruct Hp as (E & H). rewrite E. cbn. auto.
-    + apply Forall_upd_nth; [|exact Hc]. intros c. now apply cinv_read.
-  - (* atomic Append in a quiescent state *)
-    cbn [ok_label] in Hok. unfold quiescent in Hok.
-    unfold tstep1, asto, ains, Inv, phinv in *.
-    cbn [t_fly t_ph t_ls t_store t_loaded t_cons].
-    rewrite Hfly. cbn [app remove_first]. rewrite str_eqb_refl.
-    rewrite rev_app_distr. cbn [rev app].
-    destruct (t_ph st) eqn:Eph; try discriminate Hok.
-    + destruct Hp as (E & [t Hpre] & Hl). rewrite E. repeat split; auto.
-      exists t. cbn [app]. now rewrite Hpre.
-    + destruct Hp as (E & Hl). rewrite E. repeat split; auto.
-      rewrite forallb_forall in Hok. apply Forall_forall. intros c Hin.
-      rewrite Forall_forall in Hc. eapply cinv_fin_any; [now apply Hok|now apply Hc].
+    unfold Inv, tstep. split.
+    + destruct Hp as [Hfl Hph]. split; [exact Hfl|]. cbn. destruct (t_ph st); try exact Hph.
+      destruct Hph as (E & Hl). rewrite E. cbn. auto.
+    + cbn [t_cons]. apply Forall_upd_nth.
+      * intros c Hci. eapply cinv_ext; [..|apply (cinv_read st c Hp Hci)]; reflexivity.
+      * exact Hc.
+  - (* AIns *)
+    cbn [ok_label] in Hok. apply andb_true_iff in Hok as [Hf Hn2]. unfold fly_nil in Hf.
+    destruct (t_fly st) eqn:Ef; [|discriminate]. destruct Hp as [Hfl Hph].
+    unfold Inv, tstep, ains. rewrite Ef. cbn [app]. split.
+    + split; [cbn; lia|]. cbn [t_ph t_ls t_fly t_loaded t_cons t_store t_base].
+      destruct (t_ph st) as [| |pend|]; try discriminate Hn2.
+      * exact Hph.
+      * destruct Hph as (A & T & H1 & H2 & H3 & H4). exists A, T. rewrite Ef, app_nil_r in H2.
+        rewrite rev_app_distr. cbn. rewrite H2. auto.
+      * destruct Hph as (A & H1 & H2 & H3). exists A. rewrite Ef, app_nil_r in H2.
+        rewrite rev_app_distr. cbn. rewrite H2. auto.
+    + eapply Forall_impl; [|exact Hc]. intros c Hci. unfold cinv in *.
+      cbn [t_ph t_store t_fly t_base t_np]. destruct (c_fin c); [exact Hci|].
+      destruct (t_ph st) as [| |pend|]; try discriminate Hn2; try exact Hci.
+      * destruct Hci as (V0 & V1 & E1 & E2 & E3 & E4 & E5). exists V0, (V1 ++ [s]).
+        rewrite Ef, app_nil_r in E1. rewrite E1, app_length, <- !app_assoc. cbn. repeat split; auto. lia.
+      * destruct Hci as (V0 & V1 & E1 & E2 & E3 & E4 & E5). exists V0, (V1 ++ [s]).
+        rewrite Ef, app_nil_r in E1. rewrite E1, app_length, <- !app_assoc. cbn. repeat split; auto. lia.
+  - (* ASto *)
+    cbn [ok_label] in Hok. apply andb_true_iff in Hok as [Hf Hn2].
+    destruct (t_fly st) as [|x [|y r]] eqn:Ef; try discriminate Hf.
+    apply str_eqb_eq in Hf. subst x. destruct Hp as [Hfl Hph].
+    unfold Inv, tstep, asto. rewrite Ef. cbn [remove_first]. rewrite str_eqb_refl. split.
+    + split; [cbn; lia|]. cbn [t_ph t_ls t_fly t_loaded t_cons t_store t_base].
+      destruct (t_ph st) as [| |pend|]; try discriminate Hn2.
+      * exact Hph.
+      * destruct Hph as (A & T & H1 & H2 & H3 & H4). exists (A ++ [s]), T. rewrite Ef in H2.
+        rewrite H1, app_nil_r, <- app_assoc. auto.
+      * destruct Hph as (A & H1 & H2 & H3). exists (A ++ [s]). rewrite Ef in H2.
+        rewrite H1, app_nil_r, <- app_assoc. auto.
+    + eapply Forall_impl; [|exact Hc]. intros c Hci. unfold cinv in *.
+      cbn [t_ph t_store t_fly t_base t_np]. destruct (c_fin c); [exact Hci|].
+      destruct (t_ph st) as [| |pend|]; try discriminate Hn2; try exact Hci.
+      * rewrite Ef in Hci. rewrite app_nil_r. exact Hci.
+      * rewrite Ef in Hci. rewrite app_nil_r. exact Hci.
 Qed.
 
 Lemma step_inv st l : Inv st -> ok_label st l = true -> Inv (tstep st l).
 Proof.
-  intros Hi Hok. destruct l; try (apply step1_inv; [discriminate|assumption|assumption]).
-  unfold tstep. apply step1_inv; [discriminate| |reflexivity].
-  apply step1_inv; [discriminate|assumption|reflexivity].
+  intros Hi Hok. destruct l as [| |i|s|s|s]; try (apply step_inv_prim; [intros; discriminate|assumption|assumption]).
+  (* Append = AIns; ASto *)
+  cbn [ok_label] in Hok. pose proof Hok as Hok'. apply andb_true_iff in Hok' as [Hf Hn2].
+  unfold fly_nil in Hf. destruct (t_fly st) eqn:Ef; [|discriminate].
+  change (tstep st (Append s)) with (tstep (tstep st (AIns s)) (ASto s)).
+  apply step_inv_prim; [intros; discriminate| |].
+  - apply step_inv_prim; [intros; discriminate|exact Hi|exact Hok].
+  - cbn [ok_label tstep]. unfold ains. cbn [t_fly t_ph]. rewrite Ef. cbn [app].
+    now rewrite str_eqb_refl, Hn2.
 Qed.
 
 Lemma sched_inv sched : forall st, Inv st -> ok_sched st sched = true -> Inv (trun st sched).
@@ -158,42 +283,59 @@ Proof.
 Qed.
 
 Lemma init_inv S0 : Inv (tinit S0).
-Proof.
-  unfold Inv, tinit, phinv. cbn. repeat split; auto. apply pre_nil.
-Qed.
+Proof. unfold Inv, tinit, phinv. cbn. repeat split; auto. Qed.
 
-(* Every schedule without an append concurrent with loading: a consumer that
-   has finished has yielded exactly the inline sequence (the storage, newest
-   first, as it was when it finished); one that has not has yielded a prefix of it. *)
-Theorem threaded_no_concurrent_append S0 sched c :
+(* Every schedule the repair covers - appends at ANY other moment, also while
+   the loader pushes and while consumers are half way: a load() that has
+   finished has yielded exactly the entries stored or being stored when it
+   started, newest first (hence each exactly once when they are distinct); one
+   that has not has yielded a prefix; once loading is complete the cache is the
+   storage (plus the string being stored), newest first. *)
+Theorem threaded_exactly_once S0 sched c :
   ok_sched (tinit S0) sched = true ->
   let st := trun (tinit S0) sched in
   In c (t_cons st) ->
-  (c_fin c = true -> c_out c = rev (c_snap c)) /\
-  (c_fin c = false -> pre (c_out c) (rev (t_store st))) /\
-  pre (t_ls st) (rev (t_store st)) /\
-  (t_loaded st = true -> t_ls st = rev (t_store st)).
+  (c_fin c = true -> c_out c = rev (c_start c)) /\
+  (c_fin c = false -> pre (c_out c) (rev (c_start c))) /\
+  (t_loaded st = true -> t_ls st = rev (t_store st ++ t_fly st)).
 Proof.
-  intros Hok st Hin. destruct (sched_inv sched _ (init_inv S0) Hok) as (Hfly & Hp & Hc).
-  fold st in Hfly, Hp, Hc. rewrite Forall_forall in Hc. specialize (Hc c Hin). unfold cinv in Hc.
+  intros Hok st Hin. destruct (sched_inv sched _ (init_inv S0) Hok) as [Hp Hc].
+  fold st in Hp, Hc. rewrite Forall_forall in Hc. specialize (Hc c Hin). unfold cinv in Hc.
   repeat split.
   - intros E. now rewrite E in Hc.
-  - intros E. rewrite E in Hc. tauto.
-  - now apply ls_pre.
-  - now apply loaded_P4.
+  - intros E. rewrite E in Hc. destruct (t_ph st) as [| |pend|].
+    + contradiction.
+    + destruct Hc as (-> & _). apply pre_nil.
+    + destruct Hc as (V0 & V1 & _ & _ & _ & H & _). exact H.
+    + destruct Hc as (V0 & V1 & _ & _ & _ & H & _). exact H.
+  - intros El. destruct Hp as [_ Hp]. destruct (t_ph st) as [| |pend|].
+    + destruct Hp as (_ & H). congruence.
+    + destruct Hp as (_ & _ & H). congruence.
+    + destruct Hp as (A & T & _ & _ & _ & H). congruence.
+    + destruct Hp as (A & H1 & H2 & _). rewrite H2, H1, <- app_assoc.
+      rewrite (rev_app_distr (t_base st)). reflexivity.
+Qed.
+
+Corollary threaded_no_duplicates S0 sched c :
+  ok_sched (tinit S0) sched = true ->
+  In c (t_cons (trun (tinit S0) sched)) -> c_fin c = true ->
+  NoDup (c_start c) -> NoDup (c_out c).
+Proof.
+  intros Hok Hin Hf Hnd. destruct (threaded_exactly_once S0 sched c Hok Hin) as (H & _).
+  rewrite (H Hf). now apply NoDup_rev.
 Qed.
 
 (* ---- progress: let the loader run, then one read finishes the consumer -- *)
 Definition togo (st : tstate) : nat :=
   match t_ph st with
-  | P0 => 0 | P1 => length (t_store st) + 3 | P2 => length (t_store st) + 2
+  | P0 => 0 | P2 => length (t_store st) + 2
   | P3 pend => length pend + 1 | P4 => 0
   end.
 
 Lemma lstep_togo st :
   t_ph st <> P0 -> togo (tstep st LStep) = Nat.pred (togo st) /\ t_ph (tstep st LStep) <> P0.
 Proof.
-  unfold togo, tstep, tstep1. destruct (t_ph st) as [| | |[|x r]|] eqn:E; intros H; cbn; try rewrite E;
+  unfold togo, tstep. destruct (t_ph st) as [| |[|x r]|] eqn:E; intros H; cbn; try rewrite E;
     try rewrite rev_length; split; try congruence; try lia.
 Qed.
 
@@ -205,10 +347,10 @@ Proof.
   - cbn. split; [reflexivity|]. intros i c H1 H2. now exists c.
   - cbn [repeat]. unfold trun. cbn [fold_left]. fold (trun (tstep st LStep) (repeat LStep n)).
     destruct (IH (tstep st LStep)) as [IH1 IH2]. split.
-    + rewrite IH1. unfold tstep, tstep1. destruct (t_ph st) as [| | |[|x r]|]; cbn; try rewrite map_length; reflexivity.
+    + rewrite IH1. unfold tstep. destruct (t_ph st) as [| |[|x r]|]; cbn; try rewrite map_length; reflexivity.
     + intros i c H1 H2.
       assert (H : exists c1, nth_error (t_cons (tstep st LStep)) i = Some c1 /\ c_fin c1 = false).
-      { unfold tstep, tstep1. destruct (t_ph st) as [| | |[|x r]|]; cbn; try (now exists c);
+      { unfold tstep. destruct (t_ph st) as [| |[|x r]|]; cbn; try (now exists c);
           rewrite nth_error_map, H1; cbn; exists (set_ev c); unfold set_ev; rewrite H2; auto. }
       destruct H as (c1 & Hc1 & Hf1). now apply (IH2 i c1).
 Qed.
@@ -221,23 +363,17 @@ Proof.
   - cbn. now apply IH.
 Qed.
 
-(* invariants of EVERY schedule, appends included *)
+(* invariants of EVERY schedule, whatever the appends *)
 Definition weak_inv (st : tstate) : Prop :=
   (t_ph st = P4 -> t_loaded st = true) /\ (t_ph st = P0 -> t_cons st = []).
 
-Lemma weak_inv_step1 st l : weak_inv st -> weak_inv (tstep1 st l).
-Proof.
-  intros [H4 H0]. unfold weak_inv. destruct l as [| |i|s|s|s|]; cbn [tstep1]; unfold asto, ains;
-    cbn [t_ph t_loaded t_cons]; auto.
-  - destruct (t_ph st) as [| | |[|x r]|] eqn:E; cbn; try rewrite E; split; auto; try congruence.
-  - destruct (t_ph st) eqn:E; split; intros; try congruence; auto.
-  - split; [exact H4|]. intros E. rewrite (H0 E). reflexivity.
-Qed.
-
 Lemma weak_inv_step st l : weak_inv st -> weak_inv (tstep st l).
 Proof.
-  intros H. destruct l; try (now apply weak_inv_step1).
-  unfold tstep. now apply weak_inv_step1, weak_inv_step1.
+  intros [H4 H0]. unfold weak_inv. destruct l as [| |i|s|s|s]; cbn [tstep]; unfold asto, ains;
+    cbn [t_ph t_loaded t_cons]; auto.
+  - destruct (t_ph st) as [| |[|x r]|] eqn:E; cbn; try rewrite E; split; auto; try congruence.
+  - destruct (t_ph st) eqn:E; cbn; split; intros; try congruence; auto.
+  - split; [exact H4|]. intros E. rewrite (H0 E). reflexivity.
 Qed.
 
 Lemma weak_inv_run sched : forall st, weak_inv st -> weak_inv (trun st sched).
@@ -254,7 +390,7 @@ Proof.
   - cbn. unfold togo in En. destruct (t_ph st) eqn:E; try congruence; try lia. now apply H4.
   - cbn [repeat]. unfold trun. cbn [fold_left]. fold (trun (tstep st LStep) (repeat LStep n)).
     destruct (lstep_togo st Hne) as [E Hne']. apply IH; [lia|exact Hne'|].
-    unfold tstep, tstep1. destruct (t_ph st) as [| | |[|x r]|] eqn:Eph; cbn; try rewrite Eph; try congruence.
+    unfold tstep. destruct (t_ph st) as [| |[|x r]|] eqn:Eph; cbn; try rewrite Eph; try congruence.
     unfold togo in En. rewrite Eph in En. lia.
 Qed.
 
@@ -274,59 +410,62 @@ Proof.
   { intros E. rewrite (H0 E) in Hn. destruct i; discriminate Hn. }
   unfold trun. rewrite fold_left_app. fold (trun st (repeat LStep (togo st))).
   destruct (lsteps_cons (togo st) st) as [_ H]. destruct (H i c Hn Hf) as (c1 & Hc1 & Hf1).
-  cbn [fold_left tstep tstep1 t_cons]. exists (read (trun st (repeat LStep (togo st))) c1).
+  cbn [fold_left tstep t_cons]. exists (read (trun st (repeat LStep (togo st))) c1).
   split; [now apply nth_error_upd_nth|].
   unfold read. rewrite Hf1. cbn. now apply loaded_after_drain.
 Qed.
 
-(* ---- refutations (finding F5) --------------------------------------------- *)
+(* ---- what the repair does not cover (findings C13-F2, C13-F2b) ------------ *)
 Definition str_dec : forall a b : str, {a = b} + {a <> b} := list_eq_dec Z.eq_dec.
 
 Definition sa : str := [97]. Definition sb : str := [98]. Definition sc : str := [99].
 Definition snew : str := [78; 69; 87].
 
-(* consume two items, append, let the loader go on *)
-Definition witness_sched : list label :=
-  [CStart; LStep; LStep; LStep; LStep; CRead 0; AIns snew; ASto snew; LStep; LStep; CRead 0].
+(* the schedule that used to yield c,b,b,a is in the covered set now *)
+Definition old_witness_sched : list label :=
+  [CStart; LStep; LStep; LStep; CRead 0; AIns snew; ASto snew; LStep; LStep; CRead 0].
 
-Lemma append_during_load_witness :
-  let st := trun (tinit [sa; sb; sc]) witness_sched in
-  t_store st = [sa; sb; sc; snew] /\ t_fly st = [] /\ t_loaded st = true /\
-  t_ls st = [snew; sc; sb; sa] /\
-  exists c, t_cons st = [c] /\ c_fin c = true /\ c_out c = [sc; sb; sb; sa].
-Proof. vm_compute. repeat split. eexists. repeat split. Qed.
+Lemma old_witness_now_fine :
+  ok_sched (tinit [sa; sb; sc]) old_witness_sched = true /\
+  let st := trun (tinit [sa; sb; sc]) old_witness_sched in
+  t_ls st = [snew; sc; sb; sa] /\ map c_out (t_cons st) = [[sc; sb; sa]].
+Proof. vm_compute. auto. Qed.
 
-Theorem append_during_load_refuted :
+(* append_string between the first load()'s cache reset and the loader's
+   reading of the storage, then a second load(): it yields NEW twice *)
+Definition window_sched : list label :=
+  [CStart; AIns snew; ASto snew; CStart; LStep; LStep; LStep; LStep; LStep; CRead 1].
+
+Theorem append_in_window_refuted :
   ~ (forall S0 sched c,
        let st := trun (tinit S0) sched in
        NoDup (t_store st) -> t_fly st = [] -> In c (t_cons st) -> c_fin c = true ->
        forall s, In s (c_out c) -> count_occ str_dec (c_out c) s = 1%nat).
 Proof.
   intros H.
-  destruct append_during_load_witness as (Hs & Hf & _ & _ & c & Hc & Hfin & Hout).
-  specialize (H [sa; sb; sc] witness_sched c). cbv zeta in H.
-  rewrite Hs, Hc, Hout in H.
-  assert (Hnd : NoDup [sa; sb; sc; snew]).
-  { repeat constructor; cbn; intuition discriminate. }
-  specialize (H Hnd Hf (or_introl eq_refl) Hfin sb (or_intror (or_introl eq_refl))).
+  assert (E : trun (tinit [sa; sb]) window_sched =
+              mkt [sa; sb; snew] [snew; snew; sb; sa] true 1 P4
+                  [mkc 0 0 [] false true [sa; sb]; mkc 4 1 [snew; snew; sb; sa] true false [sa; sb; snew]]
+                  [] [sa; sb; snew]) by (vm_compute; reflexivity).
+  specialize (H [sa; sb] window_sched (mkc 4 1 [snew; snew; sb; sa] true false [sa; sb; snew])).
+  cbv zeta in H. rewrite E in H. cbn [t_store t_fly t_cons c_fin c_out] in H.
+  assert (Hnd : NoDup [sa; sb; snew]) by (repeat constructor; cbn; intuition discriminate).
+  specialize (H Hnd eq_refl (or_intror (or_introl eq_refl)) eq_refl snew (or_introl eq_refl)).
   vm_compute in H. discriminate H.
 Qed.
 
-(* append between the loader's `_loaded_strings = []` and its reading of the
-   storage: the entry is in the cache twice for good *)
-Definition witness_sched2 : list label :=
-  [CStart; LStep; AIns snew; ASto snew; LStep; LStep; LStep; LStep; LStep; CRead 0].
-
-Theorem append_before_snapshot_refuted :
+(* ... and the cache keeps the entry twice *)
+Theorem cache_in_window_refuted :
   ~ (forall S0 sched,
        let st := trun (tinit S0) sched in
        NoDup (t_store st) -> t_fly st = [] -> t_loaded st = true ->
        t_ls st = rev (t_store st)).
 Proof.
-  intros H. specialize (H [sa; sb] witness_sched2). cbv zeta in H.
-  assert (E : trun (tinit [sa; sb]) witness_sched2 =
-              mkt [sa; sb; snew] [snew; snew; sb; sa] true P4
-                  [mkc 4 [snew; snew; sb; sa] true false [sa; sb; snew]] []) by (vm_compute; reflexivity).
+  intros H. specialize (H [sa; sb] window_sched). cbv zeta in H.
+  assert (E : trun (tinit [sa; sb]) window_sched =
+              mkt [sa; sb; snew] [snew; snew; sb; sa] true 1 P4
+                  [mkc 0 0 [] false true [sa; sb]; mkc 4 1 [snew; snew; sb; sa] true false [sa; sb; snew]]
+                  [] [sa; sb; snew]) by (vm_compute; reflexivity).
   rewrite E in H. cbn [t_store t_fly t_loaded t_ls] in H.
   assert (Hnd : NoDup [sa; sb; snew]) by (repeat constructor; cbn; intuition discriminate).
   specialize (H Hnd eq_refl eq_refl). vm_compute in H. discriminate H.
